@@ -1,17 +1,135 @@
 """Human-written texts of MANIFEST.json (levels, notes, techniques)."""
 
 NOTES = ("Technique family: property-based testing and fuzzing. Every check states its property as an executable oracle over generated "
-         "inputs / operation histories (pgregory.net/rapid v1.3.0, exhaustive enumeration of small finite domains, native go fuzzing in the "
-         "thorough tier) and shrinks failures to a JSON trace replayed without the generator. See DESIGN.md.")
+         "inputs / operation histories (pgregory.net/rapid v1.3.0 state machines, exhaustive enumeration of small finite domains, native go fuzzing "
+         "in the thorough tier where registered) and shrinks failures to a JSON trace that ./check <id> --replay re-executes without the generator. "
+         "Genuine defects found on the pinned tree were repaired by nine `fix:` commits in /repo (listed in known_findings.json as fixed); two defect "
+         "classes are recorded as open known findings (KF1, KF2), excluded by construction from the generators and re-probed by the C01 check. "
+         "See DESIGN.md.")
+
+_TRUST = ("Trusted: Go 1.24 toolchain, rapid v1.3.0 (generation/shrinking only; replay does not use it), the harness' reference model and "
+          "independent comparators (harness/model.go, kinds.go), the build-tag-guarded read-only walker where used. ")
+_DOMAIN = ("Inputs stay inside the property's stated domain; the known-finding classes KF1/KF2 (known_findings.json) are excluded by construction and counted in the evidence. "
+           "Exploration: held on everything generated, no proof of absence.")
 
 TEXTS = {
     "C01": {
         "technique": "model-based stateful property testing (rapid state machine vs. map model) with derived absent-key sweeps",
         "design_ref": "DESIGN.md §4 C01",
-        "level_text": "Generated histories over all six tree kinds and every key type are applied to the real tree and to a map model; every Insert/Delete/Search outcome and periodic full sweeps (all stored keys found, derived absent neighbours not found) are compared. This is exploration: it held on every generated history, it does not prove absence.",
-        "level_note": "Trusted: Go 1.24 toolchain, rapid v1.3.0, the harness model and comparators. Inputs are restricted to the property's domain; the two known-finding classes KF1/KF2 (known_findings.json) are excluded by construction and re-probed separately.",
+        "level_text": "Generated histories over all six tree kinds and every key type are applied to the real tree and to a map model; every Insert/Delete/Search outcome and periodic full sweeps (all stored keys found with their value, derived absent neighbours - truncations, extensions, one-byte changes - not found, no call panics) are compared. Focused templates force the hard classes (probes shorter than / diverging inside a >10-byte path, every grow/shrink threshold). Exploration is the right level: the property quantifies over unbounded histories and an executable map oracle is exact.",
+        "level_note": _TRUST + _DOMAIN,
+    },
+    "C02": {
+        "technique": "model-based stateful property testing; All()/Backward() compared element-wise with an independently sorted model",
+        "design_ref": "DESIGN.md §4 C02",
+        "level_text": "The same history generator (with deletes and bulk grow/shrink) runs on every kind; after every 3rd op and at the end All() must equal the model sorted by a comparator that never calls a go-art encoder (key form and value, element by element) and Backward() its reverse.",
+        "level_note": _TRUST + "Collation order = CompareString of a separate x/text collator instance; pairs on which x/text contradicts itself (Compare vs Key) are excluded and counted. " + _DOMAIN,
+    },
+    "C03": {
+        "technique": "model-based stateful property testing; Range results vs. filtered sorted model, bound generators aimed at pruning logic",
+        "design_ref": "DESIGN.md §4 C03",
+        "level_text": "Histories on byte-string, integer, float and compound trees with Range(a,b) for bounds that are stored, neighbouring, below-min/above-max, equal, reversed, empty (byte strings) or share a long prefix behind a decoy subtree; the result must equal the model filtered by min(a,b) <= k <= max(a,b) in order with values. The property's carve-outs are skipped and counted.",
+        "level_note": _TRUST + _DOMAIN,
+    },
+    "C04": {
+        "technique": "model-based stateful property testing; Prefix results vs. bytes.HasPrefix filter of the sorted model, sibling-splice prefix generator",
+        "design_ref": "DESIGN.md §4 C04",
+        "level_text": "Histories on byte-string trees and on collation trees (6 collators, contraction-free text) with Prefix(p) for p empty, stored, cut inside/at/after a compressed path, extended, spliced from a sibling subtree, longer than every key or unmatched; the result must equal the model filtered by HasPrefix on the original bytes, in tree order, and never panic.",
+        "level_note": _TRUST + "Collation precondition (primary weights of p+s start with those of p) is checked per query with an independent primary-strength collator; violating queries are carved out and counted. " + _DOMAIN,
+    },
+    "C05": {
+        "technique": "model-based stateful property testing; extremes and TopK/BottomK vs. sorted model incl. empty/singleton/emptied trees",
+        "design_ref": "DESIGN.md §4 C05",
+        "level_text": "Histories over all kinds with Minimum/Maximum and TopK/BottomK(n) for n in {0,1,size-1,size,size+1,size+17,2^32,random}, on never-filled, singleton, emptied and large-fan-out trees, compared with the first/last elements of the sorted model.",
+        "level_note": _TRUST + _DOMAIN,
+    },
+    "C06": {
+        "technique": "model-based stateful property testing; Size() checked after every op against model, All() count and reachable leaves",
+        "design_ref": "DESIGN.md §4 C06",
+        "level_text": "Size() is compared after every single operation with the model cardinality, the number of pairs All() yields and the number of leaves the hook walker reaches; insertion paths (empty tree, leaf split, inline and >10-byte path split, child add) are classified from consecutive dumps and all occur per run.",
+        "level_note": _TRUST + _DOMAIN,
+    },
+    "C07": {
+        "engine": "enumerative",
+        "technique": "exhaustive enumeration in value order (8/16-bit quick, 32-bit thorough) + boundary sweeps + rapid-generated pairs/tuples against native comparison",
+        "design_ref": "DESIGN.md §4 C07",
+        "level_text": "Every value of the 8/16-bit types (quick) and of uint32/int32/float32 (thorough, 2^32 each, sharded) is walked in value order: fixed length, bit-exact round trip and strict byte-order monotonicity on every adjacent pair, which on a finite total order is injectivity plus order isomorphism; 64-bit types get 2^16..2^20-value sweeps around each boundary, all/sampled NaN patterns, generated pairs and generated 2..4-field tuples; the whole run is repeated under GOARCH=386. The enumerated sub-domains are exhaustive; the rest is exploration.",
+        "level_note": "Oracle is native Go comparison (integers <, floats IsNaN/Signbit/<), never a go-art function; the rank enumeration that produces neighbours is validated against it. 64-bit types are sampled.",
+    },
+    "C08": {
+        "technique": "model-based stateful property testing on collation trees; order oracle = independent x/text collator instance",
+        "design_ref": "DESIGN.md §4 C08",
+        "level_text": "Histories (with deletes) on collation trees for 12 collator configurations x string/[]byte and []rune with the default collator, over text mixing case, accents, digits, scripts and long stems; iteration must follow CompareString of a separate collator instance, Search/Delete work by original string (secondary/tertiary variants are distinct keys), yielded keys are byte-identical to the inserted ones.",
+        "level_note": _TRUST + "x/text is the definition of the collator's order; stored strings must be pairwise distinguishable (distinct sort keys: KF2 exclusion, counted) and x/text self-consistent on each pair. " + _DOMAIN,
+    },
+    "C09": {
+        "technique": "model-based stateful property testing with per-case generated codecs (random field schemas) vs. field-wise tuple comparator",
+        "design_ref": "DESIGN.md §4 C09",
+        "level_text": "A schema of 1..4 numeric fields plus optional terminated string is drawn per case, the codec is built in the harness from the library's exported encodings (the documented usage), and histories use every Tree method except Prefix; results must be those of the tuple-lexicographic order and keys come back through the codec's own decoding.",
+        "level_note": _TRUST + "Codecs are contract-respecting by construction (fixed-width fields, NUL-free terminated string last). " + _DOMAIN,
+    },
+    "C10": {
+        "engine": "enumerative",
+        "technique": "closed state-space enumeration of a bare node over boundary bytes + exhaustive/generated checks of the SWAR/SIMD primitives against a scalar scan + rapid add/remove sequences",
+        "design_ref": "DESIGN.md §4 C10",
+        "level_text": "A bare node (hook handle) is driven without a tree: breadth-first closure of all reachable states under add/remove of boundary bytes (node4, growth, shrink with stale lanes, merge), exhaustive 4-lane primitive checks on boundary lane words, generated 16-lane arrays (arbitrary bytes in unoccupied lanes) for every fill 0..16 x all 256 probes against a scalar scan, and generated sequences/sweeps across node48/node256; after every step all 256 probes, both enumeration orders, extremes and the counter are checked. Repeated under GOARCH=386 (portable fallback).",
+        "level_note": "node16_arm64.s cannot be executed here and is not covered. Node API preconditions respected (add unregistered, remove registered). The hook handle calls the library's own addChild/deleteChild/findChild/all/backward/minimum/maximum.",
+    },
+    "C11": {
+        "technique": "stateful property testing with a structural oracle: dump == independently built compressed radix tree of the key set, after every op",
+        "design_ref": "DESIGN.md §4 C11",
+        "level_text": "After every operation of generated histories on all kinds the hook dump must equal the compressed radix tree built independently from the current descent keys (reachability, >=2 distinct ascending branch bytes, path bytes, counters, class capacity, leaves == Size). Equality with a function of the key set alone also gives history independence.",
+        "level_note": _TRUST + "The walker is plain field reads. " + _DOMAIN,
+    },
+    "C12": {
+        "technique": "stateful property testing over interleaved multi-tree histories with per-tree models and fresh-twin differential",
+        "design_ref": "DESIGN.md §4 C12",
+        "level_text": "2..6 trees of mixed kinds on one goroutine with heavy fan-out churn so that nodes of every class move between trees through the pool; each tree is compared with its own model (results, scans, structure) and a tree emptied by deletes is shadowed by a freshly constructed tree that must behave and look identical from then on.",
+        "level_note": _TRUST + "Pool traffic between trees is measured (class census per op), not assumed. " + _DOMAIN,
+    },
+    "C13": {
+        "technique": "stateful property testing with caller-owned arena slices (spare capacity, buffer reuse) and byte-exact arena comparison",
+        "design_ref": "DESIGN.md §4 C13",
+        "level_text": "Every []byte key argument is a sub-slice (offset 0..8, spare capacity 0..3 holding live pattern bytes) of one arena reused for all calls; the arena must be byte-identical after each Insert/Search/Delete/Prefix/Range, is then overwritten, and the tree must still hold exactly the model.",
+        "level_note": _TRUST + _DOMAIN,
+    },
+    "C14": {
+        "technique": "stateful property testing; sequences driven directly with a yield function that stops at a generated position, then re-iterated",
+        "design_ref": "DESIGN.md §4 C14",
+        "level_text": "For All, Backward, Prefix, Range, TopK, BottomK on generated trees a sequence value is abandoned after a drawn number of elements (late callbacks are counted, not crashed on) and then iterated completely 1..3 times; every pass must equal a complete pass over a freshly obtained sequence.",
+        "level_note": _TRUST + _DOMAIN,
+    },
+    "C15": {
+        "technique": "stateful property testing with raw-state bracketing: byte-exact serialisation of the whole node graph before/after each non-mutating call",
+        "design_ref": "DESIGN.md §4 C15",
+        "level_text": "Every read-only call, failed Delete and overwriting Insert of generated histories is bracketed by two raw dumps (all node fields incl. dead lanes, addresses, leaf bytes, values, root, size) that must be identical (overwrite: identical but one leaf value).",
+        "level_note": _TRUST + "The collation codec's scratch buffer is not part of the node graph (its growth is C17's subject). " + _DOMAIN,
+    },
+    "C16": {
+        "technique": "concurrent re-execution of rapid-generated per-goroutine histories under the Go race detector, results vs. sequential reference",
+        "design_ref": "DESIGN.md §4 C16",
+        "level_text": "Under -race, goroutines with private trees re-execute generated histories simultaneously (pool shared), and many goroutines query one quiescent tree; GOMAXPROCS and yield points are drawn per case; any race report or deviation from the sequential results is a violation.",
+        "level_note": "Schedules are sampled, not enumerated; a race whose two accesses never both execute in a sampled run is missed. The race detector reports no false positives.",
+    },
+    "C17": {
+        "technique": "generated long-running scenarios with live-heap measurement at geometric checkpoints (N,2N,4N,8N operations)",
+        "design_ref": "DESIGN.md §4 C17",
+        "level_text": "rapid draws kind, key set and operation mix; 8N operations run (N=1e5 quick, 1e6 thorough) and live heap after forced collections is sampled at 0,N,2N,4N,8N: growth above 1 MiB that shows in at least two intervals is a leak; after deleting every key the tree may retain at most 256 KiB.",
+        "level_note": "A measurement against thresholds, not a bound proof; leaks below ~0.7 B/op (quick) / ~0.15 B/op (thorough) escape. Over-threshold emptied-tree measurements are re-taken up to three times.",
+    },
+    "C18": {
+        "technique": "stateful property testing under GC pressure (GC percent 1, forced collections, finalizer oracle) with a checkptr-instrumented build",
+        "design_ref": "DESIGN.md §4 C18",
+        "level_text": "Histories on all kinds x 7 value types run with GC percent 1 and forced collections at drawn points in a -d=checkptr binary; stored keys/values are re-verified against content recomputed from ids and no finalizer of a stored pointer value may have run.",
+        "level_note": _TRUST + "Collector timing is forced, not enumerated. The model keeps ids only. " + _DOMAIN,
+    },
+    "C19": {
+        "engine": "script",
+        "technique": "exhaustive differential check: generator output (scratch copy) vs. checked-in trees.go, whole file and per instantiation",
+        "design_ref": "DESIGN.md §4 C19",
+        "level_text": "The generator plus gofmt is executed on the current working tree in a scratch copy and compared byte for byte with trees.go, as a whole and for each of the five instantiations. The domain is finite and enumerated completely; there is nothing to randomise, which is the degenerate case of a differential test.",
+        "level_note": "Trusted: the Go toolchain's text/template and gofmt. No generation involved.",
     },
 }
 
-_PENDING = "check not built yet in this revision of /verif (planned in DESIGN.md §4)"
-NOT_APPLICABLE = {p: _PENDING for p in ["C%02d" % i for i in range(1, 20)]}
+NOT_APPLICABLE = {}
